@@ -36,6 +36,8 @@ def build(v, strs=None):
         return getattr(importlib.import_module(mod), name)(v["value"])
     if "$dict" in v:
         return {(_hashable(build(k, strs))): build(x, strs) for k, x in v["$dict"]}
+    if "$modconst" in v:
+        return getattr(importlib.import_module(v["$modconst"][0]), v["$modconst"][1])
     if "$opaque" in v:
         return Opaque(v["$opaque"])
     for tag in ("$rec", "$obj"):
